@@ -2,7 +2,7 @@
 from .. import common as C
 from .. import engine as E
 
-THEOREMS = ["c04_calls_true", "c04_trace_true"]
+THEOREMS = ["c04_calls_true", "c04_trace_true", "c04_merge_location", "c04_call_true"]
 
 
 def run(ctx, H):
